@@ -7,4 +7,5 @@ CONSTANTS
  ChunkLimit = 6
  RetryLimit = 10
  HttpRetries = 5
+ IgnoreInvalidDigest = FALSE
 PROPERTY Terminates
